@@ -10,6 +10,7 @@ mod gen_sigma;
 mod gen_enc;
 mod gen_bind;
 mod kdf;
+mod fresh;
 mod gen_range;
 mod range;
 mod enc;
@@ -37,6 +38,7 @@ pub fn exec(op: &str, args: &[&str]) -> String {
         "elg" => enc::op_elg(args),
         "ae" => enc::op_ae(args),
         "kdf" => kdf::op_kdf(args),
+        "fresh" => fresh::op_fresh(args),
         _ => "bad-op".to_string(),
     }
 }
